@@ -375,6 +375,35 @@ def multiplyDimen (a b : Int) : ARes Int :=
   | some r => .set r
   | none => .error
 
+/-! ### Sequences of primitives on one register (`Op::apply_to_variable`: on `Err` the error is
+reported and `variable.set` is not reached) -/
+
+inductive ArithOp
+  | advance (b : Int)
+  | multiply (b : Int)
+  | divide (b : Int)
+  deriving Repr, DecidableEq
+
+/-- One primitive on a `\count` register: the new value and whether an error was reported. -/
+def stepInt (a : Int) : ArithOp → Int × Bool
+  | .advance b => match advanceInt a b with | .set v => (v, false) | .error => (a, true)
+  | .multiply b => match multiplyInt a b with | .set v => (v, false) | .error => (a, true)
+  | .divide b => match divideInt a b with | .set v => (v, false) | .error => (a, true)
+
+/-- One primitive on a `\dimen` register (the operand of `\advance` is a scanned dimension). -/
+def stepDimen (a : Int) : ArithOp → Int × Bool
+  | .advance b => match advanceInt a b with | .set v => (v, false) | .error => (a, true)
+  | .multiply b => match multiplyDimen a b with | .set v => (v, false) | .error => (a, true)
+  | .divide b => match divideInt a b with | .set v => (v, false) | .error => (a, true)
+
+/-- A program: the final value and the number of errors. -/
+def runReg (step : Int → ArithOp → Int × Bool) : Int → List ArithOp → Int × Nat
+  | a, [] => (a, 0)
+  | a, op :: ops =>
+    let s := step a op
+    let r := runReg step s.1 ops
+    (r.1, r.2 + (if s.2 then 1 else 0))
+
 /-- One component pair of `Glue::wrapping_add` (with fixes/C06-d.patch: TeX §1239's treatment
 of zero stretch). `a` is the register, `b` the scanned summand. -/
 def addComp (a : Int) (ao : Nat) (b : Int) (bo : Nat) : Int × Nat :=
